@@ -128,6 +128,7 @@ func (r *Runner) internLine(l *Line) {
 		}
 	}
 	step := func(st *Step) {
+		in(st.Alphabet)
 		in(st.Pre)
 		in(st.Post)
 		in(st.Roots)
